@@ -295,6 +295,12 @@ class ExecutionContext:
                             localScope[ref] = self.__MatrixMatrixMultiply(
                                 instruction.Type.Shape, op1, op2
                             )
+                        case LinearIR.OpCode.MATRIX_MUL_VECTOR:
+                            result = [0 for _ in range(len(op1))]
+                            for i in range(len(op1)):
+                                for k in range(len(op2)):
+                                    result[i] += op1[i][k] * op2[k]
+                            localScope[ref] = result
                         case _:
                             Errors.ERROR_INTERNAL_COMPILER_ERROR.Raise(
                                 f"Unsupported binary operation: {operation}"
